@@ -687,3 +687,20 @@ Qed.
 
 End Lazy.
 End Calls.
+
+(* successive solves on one solver: the second solve starts from the cache the
+   first one left; over both, nothing is requested twice.  (P1, P2 may differ;
+   any number of solves follows by iterating enc_once with H0 := all earlier calls.) *)
+Theorem enc_two_solves_once U P1 P2 evs1 evs2 st1 w1 st2 w2 :
+  enc_run U P1 (estate0 cache0) [] [] evs1 = Some (st1, w1) ->
+  enc_run U P2 (estate0 (e_cache st1)) [] [] evs2 = Some (st2, w2) ->
+  let H := e_calls st1 ++ e_calls st2 in
+  NoDup (flat_map k_cands H) /\ NoDup (flat_map k_deps H) /\
+  NoDup (flat_map k_match H) /\ NoDup (flat_map k_nonmatch H).
+Proof.
+  intros E1 E2.
+  destruct (enc_once U P1 [] cache0 evs1 st1 w1 (cinv0 U) E1) as (_ & _ & _ & _ & _ & HC1). simpl in HC1.
+  destruct (enc_once U P2 (e_calls st1) (e_cache st1) evs2 st2 w2 HC1 E2) as (A & B & C & D & _).
+  cbv zeta. auto.
+Qed.
+
